@@ -17,6 +17,12 @@ pub fn decode_pg(t: &mut Tape, cfg: &GenCfg, gcfg: &GoalCfg, ngoals: usize) -> P
         let goals = (0..ngoals).map(|_| gen_dense_goal(t, &program)).collect();
         return PG { program, goals };
     }
+    // shape knob: several constraints on one unknown (only where goals may have unknowns)
+    if gcfg.exists && t.chance(15) {
+        let program = gen_conj_program(t);
+        let goals = (0..ngoals).map(|_| gen_conj_goal(t, &program)).collect();
+        return PG { program, goals };
+    }
     let program = gen_program(t, cfg);
     let goals = (0..ngoals).map(|_| gen_goal(t, &program, gcfg)).collect();
     PG { program, goals }
